@@ -1284,6 +1284,17 @@ func lemmaSynonymCodeRoundTrip(synonymID, docID uint32) {
 //@ modifies nothing
 //@ end
 
+// writer side: nothing collected for one document is still in the per-document table when the next document's
+// fields are visited (whether the reset deletes the entries or empties them); $visited / $dom0 are the ghost
+// sets of the range-over-map iteration (keys produced so far, keys present when the range statement started)
+//@ pred isfEmpty(m, k) = len(mapget(m, k).vals) == 0 && len(mapget(m, k).typs) == 0 && len(mapget(m, k).arrayposs) == 0
+//@ func (*interim).writeStoredFields returns (storedIndexOffset, err)
+//@ thin
+//@ tags [C02]
+//@ loop 2 invariant forall k uint16 :: {haskey(docStoredFields, k)} haskey(docStoredFields, k) ==> $dom0[k] && ($visited[k] ==> isfEmpty(docStoredFields, k)) [C02]
+//@ assert bleve_index_api.Document.VisitFields#1 : forall k uint16 :: {haskey(docStoredFields, k)} haskey(docStoredFields, k) ==> isfEmpty(docStoredFields, k) [C02]
+//@ end
+
 //@ func persistStoredFieldValues returns (currOut, dataOut, err)
 //@ tags [C02,C05,C09]
 //@ wf requires len(stf) >= len(storedFieldValues) && len(spf) >= len(storedFieldValues) && curr >= 0 && curr <= 0x1fffffffffffffff && len(data) <= 0x1fffffffffffffff
